@@ -117,6 +117,10 @@ fn main() {
     if prop == "c14" {
         strict_err = Some(c14::generate(&mut s, thorough));
     }
+    #[cfg(feature = "c14b")]
+    if prop == "c14b" {
+        strict_err = Some(c14b::generate(&mut s, thorough));
+    }
     #[cfg(feature = "c15")]
     if prop == "c15" {
         strict_err = Some(c15::generate(&mut s, thorough));
